@@ -508,13 +508,14 @@ class LookupDefaultAssumed(Contract):
         a, k = c.self, eng.to_val(st, c.spec_cls)
         dv = DV(a, k)
         missing = sentinel(eng, st, "MISSING")
-        return [("missing", (c.res == missing) == NODEF(a, k)),
+        res = c.res if is_val(c.res) else eng.to_val(c.post, c.res)
+        return [("missing", (res == missing) == NODEF(a, k)),
                 ("value", z3.Implies(z3.Not(NODEF(a, k)), z3.And(
-                    z3.Not(is_absent(c.res)), deq(c.res, dv), z3.Not(is_sentinel(eng, st, c.res)),
-                    z3.Implies(atomic(st, dv), c.res == dv),
-                    z3.Implies(z3.And(z3.Not(atomic(st, dv)), z3.Not(z3.And(is_spec(eng, st, dv), dnc_class(eng, st, dv)))),
-                               z3.And(is_ref(c.res), a_of(c.res) >= st.alloc, a_of(c.res) < c.post.alloc)),
-                    z3.Implies(is_ref(c.res), a_of(c.res) < c.post.alloc))))]
+                    z3.Not(is_absent(res)), deq(res, dv), z3.Not(is_sentinel(eng, st, res)),
+                    z3.Implies(atomic(st, dv), res == dv),
+                    z3.Implies(z3.And(z3.Not(atomic(st, dv)), z3.Not(leaf(st, dv)), z3.Not(z3.And(is_spec(eng, st, dv), dnc_class(eng, st, dv)))),
+                               z3.And(is_ref(res), a_of(res) >= st.alloc, a_of(res) < c.post.alloc)),
+                    z3.Implies(is_ref(res), a_of(res) < c.post.alloc))))]
 
     def exc_any(self, c):
         return not_attr_error(c)
@@ -803,7 +804,7 @@ class DelAttr(GenMethod):
                 ("c08.slot", z3.If(raw, is_absent(x1), z3.And(
                     deq(x1, dflt), z3.Not(is_absent(x1)),
                     # a fresh value, never the class-level default object itself (instances of do_not_copy classes excepted)
-                    z3.Implies(z3.And(z3.Not(atomic(st, dflt)), z3.Not(z3.And(is_spec(eng, st, dflt), dnc_class(eng, st, dflt)))),
+                    z3.Implies(z3.And(z3.Not(atomic(st, dflt)), z3.Not(leaf(st, dflt)), z3.Not(z3.And(is_spec(eng, st, dflt), dnc_class(eng, st, dflt)))),
                                z3.And(is_ref(x1), a_of(x1) >= st.alloc))))),
                 ("c11.cleared", z3.Implies(z3.And(z3.Not(skip), has_deps), all_cleared(eng, st, c.post, o, o, a))),
                 ("c11.frame", frame_slots(eng, st, c.post, o, o, a, True, None, skip=z3.Or(skip, z3.Not(has_deps)))),
